@@ -193,6 +193,16 @@ def tstep (tm : Timer) (e : TEv) : Timer :=
 
 def trun (tm : Timer) (es : List TEv) : Timer := es.foldl tstep tm
 
+/-- a half-closed tunnel (`exchange_once` after one direction has finished: `another.await`): nothing but the surviving
+direction's own per-iteration timer ends it, at the start of that direction's current iteration plus `T` -/
+def survivorDeadline (tm : Timer) : Dir → Nat
+  | .left => tm.sL + tm.T
+  | .right => tm.sR + tm.T
+
+def lastActivity (tm : Timer) : Dir → Nat
+  | .left => tm.laL
+  | .right => tm.laR
+
 /-- with no further progress, the timers keep firing: the earlier of the two (left on a tie,
 since it is polled first) -/
 def idleFire (tm : Timer) : TEv := if tm.sL ≤ tm.sR then .fire .left else .fire .right
